@@ -17,7 +17,7 @@ struct C15 : Harness {
             for (int i = 0; i < nslots; ++i) {
                 int kind = *rc::gen::element((int)C128, (int)C64, (int)CM, (int)P128, (int)P64, (int)PM);
                 auto bes = backends_for(kind);
-                g.add_slot(kind, *rc::gen::elementOf(bes), *rc::gen::element(0, 0, 0));
+                g.add_slot(kind, *rc::gen::elementOf(bes), *rc::gen::element(0, 0, 0xFF, 0xA5, 0x01));
             }
             int n = *irange(4, 60);
             for (int i = 0; i < n; ++i) g.step(*irange(0, nslots - 1));
